@@ -11,6 +11,7 @@ import TypedPathVerif.Spec.StdSpec
 import TypedPathVerif.Spec.StdBuf
 import TypedPathVerif.Spec.HashSpec
 import TypedPathVerif.Spec.Utf8
+import TypedPathVerif.Model.Comb.Windows
 
 open TP
 
@@ -86,6 +87,29 @@ def runMix (s : PState) : List Char → List String
     | some (comp, s') => s!"{showComp comp}@{hexOf s'.remaining}" :: runMix s' cs
     | none => s!"none@{hexOf s.remaining}" :: runMix s cs
 
+def showFault : Comb.Fault → String
+  | .panic => "PANIC"
+  | .diverge => "DIVERGE"
+
+/-- the same interleaving on the byte-level combinator transcription (`Model/Comb`) -/
+def runCMixU (s : Comb.Unix.St) : List Char → List String
+  | [] => []
+  | c :: cs =>
+    let r := if c = 'f' then s.nextFront else s.nextBack
+    match r with
+    | .some comp s' => s!"{showComp comp}@{hexOf s'.remaining}" :: runCMixU s' cs
+    | .none => s!"none@{hexOf s.remaining}" :: runCMixU s cs
+    | .fault f => [showFault f]
+
+def runCMixW (s : Comb.Windows.St) : List Char → List String
+  | [] => []
+  | c :: cs =>
+    let r := if c = 'f' then s.nextFront else s.nextBack
+    match r with
+    | .some comp s' => s!"{showComp comp}@{hexOf s'.remaining}" :: runCMixW s' cs
+    | .none => s!"none@{hexOf s.remaining}" :: runCMixW s cs
+    | .fault f => [showFault f]
+
 def showWQueries (b : Bytes) : String :=
   let p := match wPrefix b with | some p => showComp (.pfx p) | none => "none"
   s!"pfx={p} len={wPrefixLen b} has={showBool (wHasPrefix b)} any={showBool (wHasAnyVerbatimPrefix b)} " ++
@@ -156,6 +180,19 @@ def step (line : String) : String :=
     | some e, some b =>
       let m := if mask = "-" then [] else mask.toList
       if m.all (fun c => c = 'f' || c = 'b') then " ".intercalate (runMix (e.new b) m) else badOp
+    | _, _ => badOp
+  | ["cmix", e, h, mask] =>
+    match parseEnc e, parseHex h with
+    | some e, some b =>
+      let m := if mask = "-" then [] else mask.toList
+      if m.all (fun c => c = 'f' || c = 'b') then
+        match e with
+        | .unix => " ".intercalate (runCMixU (Comb.Unix.St.new b) m)
+        | .windows =>
+          match Comb.Windows.St.new b with
+          | .ok st => " ".intercalate (runCMixW st m)
+          | .error f => showFault f
+      else badOp
     | _, _ => badOp
   | ["comps", e, h] =>
     match parseEnc e, parseHex h with
